@@ -60,7 +60,7 @@ def observe (s : Sys) : String :=
   let regQ := (Sys.sortAscAmt s.regValidatorsRaw).map (fun x => s!"{x.1}:{x.2}")
   let bank := cast.flatMap (fun a => ([0, 1, 2] : List Denom).filterMap (fun dn =>
     if a = swapA ∨ c.bank a dn = 0 then none else some s!"{a}.{dn}:{c.bank a dn}"))
-  let deleg := valUniverse.filterMap (fun v => if c.deleg v = 0 then none else some s!"{v}:{c.deleg v}")
+  let deleg := valUniverse.filterMap (fun v => if !c.delegSet v then none else some s!"{v}:{c.deleg v}")
   let unb := c.unbondingQ.map (fun e => s!"({e.1},{e.2.1},{e.2.2})")
   let pend := valUniverse.flatMap (fun v => ([0, 1, 2] : List Denom).filterMap (fun dn =>
     if c.pending v dn = 0 then none else some s!"{v}.{dn}:{c.pending v dn}"))
@@ -292,7 +292,7 @@ def step (s : Sys) (line : String) : Sys × String :=
       | none => (s, "err")
       | some ri =>
         match getSwapInfo st b sa ba r ri with
-        | some (sell, amt) => (s, s!"ok {if sell then 0 else 1} {amt}")
+        | some (sell, amt) => (s, if amt = 0 then "ok - 0" else s!"ok {if sell then 0 else 1} {amt}")
         | none => (s, "err")
     | _ => bad
   | ["f", "wrate", amount, rate, total, mag, neg] => match pNats [amount, rate, total, mag], pBool neg with
